@@ -1,14 +1,32 @@
 #!/usr/bin/env python3
-"""Print a markdown table of /verif/seeded/*: property, what it needs, first result, final result."""
+"""Print a markdown table of /verif/seeded/*: property, first result, final result (own check, neighbouring checks), status."""
 import glob, json, os
 rows = []
+count = {}
 for d in sorted(glob.glob('/verif/seeded/*')):
     m = json.load(open(os.path.join(d, 'meta.json')))
+    prop = m['property']
     first = m.get('confirmed', {}).get('checks_quick', {})
     final = m.get('final_checks', {})
-    rows.append((os.path.basename(d), m['property'], ' '.join(f'{k}:{v}' for k, v in first.items()), ' '.join(f'{k}:{v}' for k, v in final.items()),
-                 m.get('summary', '').replace('\n', ' ')[:150]))
-print('| seed | property | first run | final run | change |')
-print('|---|---|---|---|---|')
+    if final.get(prop) == 'DETECTED':
+        status = 'detected'
+    elif any(v == 'DETECTED' for k, v in final.items() if k != prop):
+        status = 'detected by ' + ', '.join(k for k, v in final.items() if k != prop and v == 'DETECTED')
+    elif 'status_note' in m:
+        status = 'outside / not a violation'
+    else:
+        status = 'MISSED'
+    key = status if not status.startswith('detected by') else 'detected by a neighbouring property'
+    count[key] = count.get(key, 0) + 1
+    note = m.get('status_note', '') or (('rebased: ' + m['rebased_onto'].split(' (')[0]) if 'rebased_onto' in m else '')
+    rows.append((os.path.basename(d), prop, ' '.join(f'{k}:{v}' for k, v in first.items()), ' '.join(f'{k}:{v}' for k, v in final.items()), status,
+                 (m.get('summary', '').replace('\n', ' ').replace('|', '/')[:140]), note.replace('|', '/')[:160]))
+print('# Seeded changes: final status on the committed machinery\n')
+print(f'{len(rows)} independently written changes (each breaks one property, passes the 410 repository tests, needs something specific to show).')
+print('"first run" is the quick check of the seed\'s own property at the time the seed arrived; "final run" is `tools/seedrecheck.sh` on the final drivers.\n')
+for k in sorted(count):
+    print(f'* {k}: {count[k]}')
+print('\n| seed | property | first run | final run | status | change | note |')
+print('|---|---|---|---|---|---|---|')
 for r in rows:
     print('| ' + ' | '.join(r) + ' |')
